@@ -20,7 +20,9 @@ def oracle_boltzmann(args):
     mass = np.array(args["mass"], dtype=np.float64)
     T, ns, scale = float(args["T"]), int(args["ns"]), bool(args["scale"])
     pos = np.zeros_like(mass)
-    g = mudslide.TrajGenBoltzmann(pos, mass, T, 0, scale=scale, seed=args["seed"], momentum_seed=args["mseed"])
+    # integer-valued masses handed over as an int64 array (a user may well do that) must behave like the same float masses
+    mass_in = mass.astype(np.int64) if args.get("int_mass") else mass
+    g = mudslide.TrajGenBoltzmann(pos, mass_in, T, 0, scale=scale, seed=args["seed"], momentum_seed=args["mseed"])
     samples = list(g(ns))
     problems = []
     if len(samples) != ns:
@@ -42,12 +44,12 @@ def oracle_boltzmann(args):
     keys = _keys(samples)
     if len(set(keys)) != len(keys):
         problems.append("seed sequences not distinct: %r" % (keys,))
-    g2 = mudslide.TrajGenBoltzmann(pos, mass, T, 0, scale=scale, seed=args["seed"], momentum_seed=args["mseed"])
+    g2 = mudslide.TrajGenBoltzmann(pos, mass_in, T, 0, scale=scale, seed=args["seed"], momentum_seed=args["mseed"])
     more = list(g2(ns + 3))
     if _keys(more)[:ns] != keys or any(not np.array_equal(a[1], b[1]) for a, b in zip(samples, more)):
         problems.append("sample i changes when more samples are requested")
     # the helper in mudslide.math
-    v = boltzmann_velocities(mass, T, scale=scale, seed=args["mseed"])
+    v = boltzmann_velocities(mass_in, T, scale=scale, seed=args["mseed"])
     if not allclose(v * mass, np.asarray(samples[0][1]), float(np.max(np.abs(samples[0][1]))), rtol=1e-13):
         problems.append("math.boltzmann_velocities disagrees with TrajGenBoltzmann on the same seed")
     return not problems, {"nsamples": len(samples), "first_p": samples[0][1], "problems": problems[:3]}, \
@@ -119,7 +121,12 @@ def run(ctx):
         seed = int(rng.integers(1, 2 ** 31))
         ns = int(rng.integers(1, 7))
         args = {"mass": mass, "T": T, "ns": ns, "scale": scale, "seed": seed, "mseed": mseed}
-        g = mudslide.TrajGenBoltzmann(np.zeros(n), mass, T, 0, scale=scale, seed=seed, momentum_seed=mseed)
+        if i % 8 >= 6:
+            mass = np.ceil(mass)
+            args.update(mass=mass, int_mass=True)
+            ctx.count("boltz:int64_masses")
+        g = mudslide.TrajGenBoltzmann(np.zeros(n), mass.astype(np.int64) if args.get("int_mass") else mass, T, 0, scale=scale,
+                                      seed=seed, momentum_seed=mseed)
         samples = list(g(ns))
         z = np.random.default_rng(mseed).standard_normal((ns, n))
         j = int(rng.integers(0, ns))
